@@ -33,9 +33,9 @@ type Participant struct {
 
 // Case is one scenario: the requests, their scripts, and the schedule.
 type Case struct {
-	Layer      string        `json:"layer"`   // inbound | subgraph | both
-	OpType     string        `json:"op_type"` // query | mutation | subscription
-	HardCancel bool          `json:"hard_cancel,omitempty"`
+	Layer      string `json:"layer"`   // inbound | subgraph | both
+	OpType     string `json:"op_type"` // query | mutation | subscription
+	HardCancel bool   `json:"hard_cancel,omitempty"`
 	// MaxConc is ResolverOptions.MaxConcurrency (0: 64, never the bottleneck; 1-2: the
 	// participants themselves saturate the resolver and queue for a slot).
 	MaxConc int `json:"max_conc,omitempty"`
@@ -43,7 +43,7 @@ type Case struct {
 	// the caller's context with an error that does not wrap the context error (gRPC status style).
 	Transport string        `json:"transport,omitempty"`
 	Keys      []Key         `json:"keys"`
-	Parts      []Participant `json:"parts"`
+	Parts     []Participant `json:"parts"`
 	// Sched drives the harness: at every step the i-th number picks (mod n) among the enabled
 	// actions [start(p)…, cancel(p)…, resume(p)…, poison]; when exhausted the first enabled
 	// action is taken until none is left.
